@@ -169,22 +169,25 @@ func hasASCIIWS(s string) bool {
 
 // evidence the evaluator collects on the way (what the run really exercised)
 type refStats struct {
-	adjAcrossNonElem  int // "+" matched although a text/comment node lies between the two elements
-	sibAcrossNonElem  int // "~" matched across at least one text/comment node
-	nthNegATrue       int // :nth-*(an+b) with a<0 evaluated to true
-	nthPosATrue       int // … with a>0 evaluated to true for n >= 1
-	nthOfTypeSkipped  int // an of-type index that differs from the plain child index was used and matched
-	nthWithNonElemSib int // nth-* true on an element having text/comment siblings before it
-	emptyTrueWS       int // :empty true with white-space-only text child
-	emptyTrueComment  int // :empty true with comment child
-	emptyTrueNone     int // :empty true with no child at all
-	emptyFalseText    int // :empty false because of a non-white-space text child
-	emptyFalseElem    int // :empty false because of an element child
-	hasScopeDecided   int // :has(): a candidate was rejected only by the scope boundary
-	rootTrue          int
-	iflagFolded       int // i flag made the difference
-	notListMixed      int // :not(A, B …) evaluated on an element matching some but not all arguments
-	isListMixed       int // :is(A, B …) likewise
+	adjAcrossNonElem    int // "+" matched although a text/comment node lies between the two elements
+	sibAcrossNonElem    int // "~" matched across at least one text/comment node
+	nthNegATrue         int // :nth-*(an+b) with a<0 evaluated to true
+	nthPosATrue         int // … with a>0 evaluated to true for n >= 1
+	nthOfTypeSkipped    int // an of-type index that differs from the plain child index was used and matched
+	nthWithNonElemSib   int // nth-* true on an element having text/comment siblings before it
+	emptyTrueWS         int // :empty true with white-space-only text child
+	emptyTrueComment    int // :empty true with comment child
+	emptyTrueNone       int // :empty true with no child at all
+	emptyFalseText      int // :empty false because of a non-white-space text child
+	emptyFalseElem      int // :empty false because of an element child
+	hasScopeDecided     int // :has(): a candidate was rejected only by the scope boundary
+	rootTrue            int
+	iflagFolded         int // i flag made the difference
+	emptyFalseOddSpace  int // :empty false only because of U+00A0 / U+000B / U+0085 … (Go's TrimSpace would say blank)
+	rootFalseNestedHTML int // :root false on an element named html that is not the root (inside <svg>)
+	iflagUnicodeOnly    int // i flag: values equal under Unicode folding but not under ASCII folding => no match
+	notListMixed        int // :not(A, B …) evaluated on an element matching some but not all arguments
+	isListMixed         int // :is(A, B …) likewise
 }
 
 type matcher struct {
@@ -199,6 +202,9 @@ func (m *matcher) eqVal(a, b string, ci bool) bool {
 	if ci && lowerASCII(a) == lowerASCII(b) {
 		m.st.iflagFolded++
 		return true
+	}
+	if ci && strings.EqualFold(a, b) {
+		m.st.iflagUnicodeOnly++ // evidence only: Unicode folding is NOT what the i flag means
 	}
 	return false
 }
@@ -335,6 +341,9 @@ func (m *matcher) simple(s *Simple, e *rnode) bool {
 				m.st.rootTrue++
 				return true
 			}
+			if e.name == "html" {
+				m.st.rootFalseNestedHTML++
+			}
 			return false
 		case "empty":
 			sawWS, sawComment := false, false
@@ -347,6 +356,9 @@ func (m *matcher) simple(s *Simple, e *rnode) bool {
 					for i := 0; i < len(c.text); i++ {
 						if !isASCIIWS(c.text[i]) {
 							m.st.emptyFalseText++
+							if strings.TrimSpace(c.text) == "" {
+								m.st.emptyFalseOddSpace++
+							}
 							return false
 						}
 					}
